@@ -139,6 +139,14 @@ func directedScenarios(w *world) []*scenario {
 		p.call(opCALL, "CALL", w.emptyExisting, Bi(0), nil, 0)
 		p.end(endSelfdestruct, w.absent[0])
 	})}, nil, nil, callTx(c[0], 0, 400000), callTx(w.emptyExisting, 0, 50000), callTx(w.absent[0], 0, 50000))
+	// deep recursion: every level bumps a storage slot and calls itself with all remaining gas; the innermost levels run
+	// out of gas and are reverted one by one (hundreds of nested snapshots)
+	add("deep-recursion", map[int][]byte{0: build(func(p *prog) {
+		p.a.PushU(1).PushU(0).Op(opSLOAD).Op(opADD).PushU(0).Op(opSSTORE)
+		p.call(opCALL, "CALL", c[0], Bi(0), nil, 0)
+		p.sload(Bi(0))
+		p.end(endReturn, common.Address{})
+	})}, nil, nil, callTx(c[0], 0, 3000000), callTx(c[0], 0, 400000))
 	// the block and transaction context the interpreter reports
 	add("block-context", map[int][]byte{0: build(func(p *prog) {
 		for _, e := range []struct {
